@@ -35,6 +35,7 @@ pub mod k0_both {
          Some(())
       }
       fn run(&mut self) { match &self.pool { Some(pl) => { let p = &mut self.p; pl.install(|| p.run()) }, None => self.p.run() } }
+      fn run_here(&mut self) { self.p.run() }
       fn run_timeout(&mut self, k: usize) -> Option<bool> { ascent::internal::verif::arm_deadline(k); let r = self.p.run_timeout(std::time::Duration::from_secs(1)); ascent::internal::verif::disarm(); Some(r) }
       fn dump(&self) -> String { vec![dump_rel(0, self.p.r0.iter().map(Row::render).collect()), dump_rel(1, self.p.r1.iter().map(Row::render).collect()), dump_rel(2, self.p.r2.iter().map(Row::render).collect())].join(" | ") }
       fn iters(&self) -> String { format!("iters {}", self.p.scc_iters.iter().map(|x| x.to_string()).collect::<Vec<_>>().join(" ")) }
@@ -80,6 +81,7 @@ pub mod k1 {
          Some(())
       }
       fn run(&mut self) { match &self.pool { Some(pl) => { let p = &mut self.p; pl.install(|| p.run()) }, None => self.p.run() } }
+      fn run_here(&mut self) { self.p.run() }
       fn run_timeout(&mut self, k: usize) -> Option<bool> { let _ = k; None }
       fn dump(&self) -> String { vec![dump_rel(0, self.p.r0.iter().map(Row::render).collect()), dump_rel(1, self.p.r1.iter().map(Row::render).collect()), dump_rel(2, self.p.r2.iter().map(Row::render).collect()), dump_rel(3, self.p.r3.iter().map(Row::render).collect())].join(" | ") }
       fn iters(&self) -> String { format!("iters {}", self.p.scc_iters.iter().map(|x| x.to_string()).collect::<Vec<_>>().join(" ")) }
@@ -126,6 +128,7 @@ pub mod k1_gen {
          Some(())
       }
       fn run(&mut self) { match &self.pool { Some(pl) => { let p = &mut self.p; pl.install(|| p.run()) }, None => self.p.run() } }
+      fn run_here(&mut self) { self.p.run() }
       fn run_timeout(&mut self, k: usize) -> Option<bool> { let _ = k; None }
       fn dump(&self) -> String { vec![dump_rel(0, self.p.r0.iter().map(Row::render).collect()), dump_rel(1, self.p.r1.iter().map(Row::render).collect()), dump_rel(2, self.p.r2.iter().map(Row::render).collect()), dump_rel(3, self.p.r3.iter().map(Row::render).collect())].join(" | ") }
       fn iters(&self) -> String { format!("iters {}", self.p.scc_iters.iter().map(|x| x.to_string()).collect::<Vec<_>>().join(" ")) }
@@ -170,6 +173,7 @@ pub mod k2_mrt {
          Some(())
       }
       fn run(&mut self) { match &self.pool { Some(pl) => { let p = &mut self.p; pl.install(|| p.run()) }, None => self.p.run() } }
+      fn run_here(&mut self) { self.p.run() }
       fn run_timeout(&mut self, k: usize) -> Option<bool> { let _ = k; None }
       fn dump(&self) -> String { vec![dump_rel(0, self.p.r0.iter().map(Row::render).collect()), dump_rel(1, self.p.r1.iter().map(Row::render).collect()), dump_rel(2, self.p.r2.iter().map(Row::render).collect()), dump_rel(3, self.p.r3.iter().map(Row::render).collect()), dump_rel(4, self.p.r4.iter().map(Row::render).collect())].join(" | ") }
       fn iters(&self) -> String { format!("iters {}", self.p.scc_iters.iter().map(|x| x.to_string()).collect::<Vec<_>>().join(" ")) }
@@ -216,6 +220,7 @@ pub mod k2_inclast {
          Some(())
       }
       fn run(&mut self) { match &self.pool { Some(pl) => { let p = &mut self.p; pl.install(|| p.run()) }, None => self.p.run() } }
+      fn run_here(&mut self) { self.p.run() }
       fn run_timeout(&mut self, k: usize) -> Option<bool> { let _ = k; None }
       fn dump(&self) -> String { vec![dump_rel(0, self.p.r0.iter().map(Row::render).collect()), dump_rel(1, self.p.r1.iter().map(Row::render).collect()), dump_rel(2, self.p.r2.iter().map(Row::render).collect()), dump_rel(3, self.p.r3.iter().map(Row::render).collect()), dump_rel(4, self.p.r4.iter().map(Row::render).collect())].join(" | ") }
       fn iters(&self) -> String { format!("iters {}", self.p.scc_iters.iter().map(|x| x.to_string()).collect::<Vec<_>>().join(" ")) }
@@ -262,6 +267,7 @@ pub mod k3_par {
          Some(())
       }
       fn run(&mut self) { match &self.pool { Some(pl) => { let p = &mut self.p; pl.install(|| p.run()) }, None => self.p.run() } }
+      fn run_here(&mut self) { self.p.run() }
       fn run_timeout(&mut self, k: usize) -> Option<bool> { let _ = k; None }
       fn dump(&self) -> String { vec![dump_rel(0, self.p.r0.iter().map(|x| x.render()).collect()), dump_rel(1, self.p.r1.iter().map(|x| x.render()).collect()), dump_rel(2, self.p.r2.iter().map(|x| x.render()).collect()), dump_rel(3, self.p.r3.iter().map(|x| x.render()).collect()), dump_rel(4, self.p.r4.iter().map(|x| x.render()).collect()), dump_rel(5, self.p.r5.iter().map(|x| x.render()).collect())].join(" | ") }
       fn iters(&self) -> String { format!("iters {}", self.p.scc_iters.iter().map(|x| x.to_string()).collect::<Vec<_>>().join(" ")) }
@@ -330,6 +336,7 @@ pub mod k4_run {
          Some(())
       }
       fn run(&mut self) { self.go() }
+      fn run_here(&mut self) { self.go() }
       fn run_timeout(&mut self, _k: usize) -> Option<bool> { None }
       fn dump(&self) -> String { vec![dump_rel(0, self.out0.iter().map(Row::render).collect()), dump_rel(1, self.out1.iter().map(Row::render).collect()), dump_rel(2, self.out2.iter().map(Row::render).collect()), dump_rel(3, self.out3.iter().map(Row::render).collect()), dump_rel(4, self.out4.iter().map(Row::render).collect()), dump_rel(5, self.out5.iter().map(Row::render).collect())].join(" | ") }
       fn iters(&self) -> String { "iters".into() }
@@ -380,6 +387,7 @@ pub mod k4_incfirst {
          Some(())
       }
       fn run(&mut self) { match &self.pool { Some(pl) => { let p = &mut self.p; pl.install(|| p.run()) }, None => self.p.run() } }
+      fn run_here(&mut self) { self.p.run() }
       fn run_timeout(&mut self, k: usize) -> Option<bool> { let _ = k; None }
       fn dump(&self) -> String { vec![dump_rel(0, self.p.r0.iter().map(Row::render).collect()), dump_rel(1, self.p.r1.iter().map(Row::render).collect()), dump_rel(2, self.p.r2.iter().map(Row::render).collect()), dump_rel(3, self.p.r3.iter().map(Row::render).collect()), dump_rel(4, self.p.r4.iter().map(Row::render).collect()), dump_rel(5, self.p.r5.iter().map(Row::render).collect())].join(" | ") }
       fn iters(&self) -> String { format!("iters {}", self.p.scc_iters.iter().map(|x| x.to_string()).collect::<Vec<_>>().join(" ")) }
@@ -423,6 +431,7 @@ pub mod k5_grt {
          Some(())
       }
       fn run(&mut self) { match &self.pool { Some(pl) => { let p = &mut self.p; pl.install(|| p.run()) }, None => self.p.run() } }
+      fn run_here(&mut self) { self.p.run() }
       fn run_timeout(&mut self, k: usize) -> Option<bool> { ascent::internal::verif::arm_deadline(k); let r = self.p.run_timeout(std::time::Duration::from_secs(1)); ascent::internal::verif::disarm(); Some(r) }
       fn dump(&self) -> String { vec![dump_rel(0, self.p.r0.iter().map(Row::render).collect()), dump_rel(1, self.p.r1.iter().map(Row::render).collect()), dump_rel(2, self.p.r2.iter().map(Row::render).collect())].join(" | ") }
       fn iters(&self) -> String { format!("iters {}", self.p.scc_iters.iter().map(|x| x.to_string()).collect::<Vec<_>>().join(" ")) }
@@ -465,6 +474,7 @@ pub mod k5_init {
          Some(())
       }
       fn run(&mut self) { match &self.pool { Some(pl) => { let p = &mut self.p; pl.install(|| p.run()) }, None => self.p.run() } }
+      fn run_here(&mut self) { self.p.run() }
       fn run_timeout(&mut self, k: usize) -> Option<bool> { let _ = k; None }
       fn dump(&self) -> String { vec![dump_rel(0, self.p.r0.iter().map(Row::render).collect()), dump_rel(1, self.p.r1.iter().map(Row::render).collect()), dump_rel(2, self.p.r2.iter().map(Row::render).collect())].join(" | ") }
       fn iters(&self) -> String { format!("iters {}", self.p.scc_iters.iter().map(|x| x.to_string()).collect::<Vec<_>>().join(" ")) }
@@ -490,8 +500,8 @@ pub mod k6_redecl {
       r2(v0, v1) <-- r1(v0, v1);
       r2(v2, v1) <-- r1(v0, v1) if ((*v0) <= 2) let v2 = ((*v0) + 1);
       r2(v0, (v0 + 1)) <-- if let Some(v0) = Some(0), r2((v0 + 1), v0), if (v0 < 6);
-      r3(v1, 2) <-- r1(v0, v1), agg () = not() in r0(_);
-      r4(v1, v21) <-- r1(v0, v1), agg v21 = min(v20) in r3((*v1), v20);
+      r3(v1, 0) <-- r1(v0, v1), agg () = not() in r0(_);
+      r4(v0, v21) <-- r0(v0), agg v21 = sum(v20) in r3((*v0), v20);
    }
    pub struct Inst { p: Prog, pool: Option<ascent::rayon::ThreadPool> }
    pub fn make(pool: Option<usize>) -> Box<dyn Driver> {
@@ -512,6 +522,7 @@ pub mod k6_redecl {
          Some(())
       }
       fn run(&mut self) { match &self.pool { Some(pl) => { let p = &mut self.p; pl.install(|| p.run()) }, None => self.p.run() } }
+      fn run_here(&mut self) { self.p.run() }
       fn run_timeout(&mut self, k: usize) -> Option<bool> { let _ = k; None }
       fn dump(&self) -> String { vec![dump_rel(0, self.p.r0.iter().map(Row::render).collect()), dump_rel(1, self.p.r1.iter().map(Row::render).collect()), dump_rel(2, self.p.r2.iter().map(Row::render).collect()), dump_rel(3, self.p.r3.iter().map(Row::render).collect()), dump_rel(4, self.p.r4.iter().map(Row::render).collect())].join(" | ") }
       fn iters(&self) -> String { format!("iters {}", self.p.scc_iters.iter().map(|x| x.to_string()).collect::<Vec<_>>().join(" ")) }
@@ -531,7 +542,7 @@ pub mod k7_runpar {
       pub in2: Vec<(i64,)>, pub out2: Vec<(i64,)>,
       pub in3: Vec<(i64,i64,)>, pub out3: Vec<(i64,i64,)>,
       pub in4: Vec<(i64,i64,i64,)>, pub out4: Vec<(i64,i64,i64,)>,
-      pub in5: Vec<(i64,i64,)>, pub out5: Vec<(i64,i64,)>,
+      pub in5: Vec<(i64,)>, pub out5: Vec<(i64,)>,
       pub in6: Vec<(i64,)>, pub out6: Vec<(i64,)>,
    }
    pub fn make(_pool: Option<usize>) -> Box<dyn Driver> { Box::new(Inst::default()) }
@@ -551,7 +562,7 @@ pub mod k7_runpar {
             relation r2(i64) = in2.into_iter().collect();
             relation r3(i64, i64) = in3.into_iter().collect();
             relation r4(i64, i64, i64) = in4.into_iter().collect();
-            relation r5(i64, i64) = in5.into_iter().collect();
+            relation r5(i64) = in5.into_iter().collect();
             relation r6(i64) = in6.into_iter().collect();
             r3(1, 3) <-- r1(2);
             r3(v0, v1) <-- r3(1, 2), if let Some(v0) = Some(1), r3(v0, v1);
@@ -560,8 +571,8 @@ pub mod k7_runpar {
             r2(v0) <-- r0(v0);
             r3(v0, 3) <-- for v0 in 0..4, r3(v0, v1), r2(2) if ((*v1) <= 3), r0(3);
             r3(v0, v0) <-- r0(v0), r1(v1);
-            r5(v0, v21) <-- r0(v0), agg v21 = min(v20) in r3(v20, (*v0));
-            r6(v0) <-- r0(v0), agg () = not() in r1(_);
+            r5(v32) <-- r0(v0), r3(v0, v0), r3(v31, v32), agg v21 = min(v20) in r3(_, v20);
+            r6(v0) <-- r0(v0), agg () = not() in r3((*v0), (*v0));
          };
          self.out0 = res.r0.iter().cloned().collect();
          self.out1 = res.r1.iter().cloned().collect();
@@ -581,13 +592,14 @@ pub mod k7_runpar {
             2 => { let v: Vec<(i64,)> = parse_rows(rows)?; if append { self.in2.extend(v) } else { self.in2 = v } },
             3 => { let v: Vec<(i64,i64,)> = parse_rows(rows)?; if append { self.in3.extend(v) } else { self.in3 = v } },
             4 => { let v: Vec<(i64,i64,i64,)> = parse_rows(rows)?; if append { self.in4.extend(v) } else { self.in4 = v } },
-            5 => { let v: Vec<(i64,i64,)> = parse_rows(rows)?; if append { self.in5.extend(v) } else { self.in5 = v } },
+            5 => { let v: Vec<(i64,)> = parse_rows(rows)?; if append { self.in5.extend(v) } else { self.in5 = v } },
             6 => { let v: Vec<(i64,)> = parse_rows(rows)?; if append { self.in6.extend(v) } else { self.in6 = v } },
             _ => return None,
          }
          Some(())
       }
       fn run(&mut self) { self.go() }
+      fn run_here(&mut self) { self.go() }
       fn run_timeout(&mut self, _k: usize) -> Option<bool> { None }
       fn dump(&self) -> String { vec![dump_rel(0, self.out0.iter().map(Row::render).collect()), dump_rel(1, self.out1.iter().map(Row::render).collect()), dump_rel(2, self.out2.iter().map(Row::render).collect()), dump_rel(3, self.out3.iter().map(Row::render).collect()), dump_rel(4, self.out4.iter().map(Row::render).collect()), dump_rel(5, self.out5.iter().map(Row::render).collect()), dump_rel(6, self.out6.iter().map(Row::render).collect())].join(" | ") }
       fn iters(&self) -> String { "iters".into() }
@@ -613,14 +625,14 @@ pub mod k7_incmiddle {
       relation r2(i64);
       relation r3(i64, i64);
       relation r4(i64, i64, i64);
-      relation r5(i64, i64);
+      relation r5(i64);
       relation r6(i64);
       r2(v0) <-- r0(v0);
       r3(v0, 3) <-- for v0 in 0..4, r3(v0, v1), r2(2) if ((*v1) <= 3), r0(3);
       include_source!(k7_incmiddle_src);
       r3(v0, v0) <-- r0(v0), r1(v1);
-      r5(v0, v21) <-- r0(v0), agg v21 = min(v20) in r3(v20, (*v0));
-      r6(v0) <-- r0(v0), agg () = not() in r1(_);
+      r5(v32) <-- r0(v0), r3(v0, v0), r3(v31, v32), agg v21 = min(v20) in r3(_, v20);
+      r6(v0) <-- r0(v0), agg () = not() in r3((*v0), (*v0));
    }
    pub struct Inst { p: Prog, pool: Option<ascent::rayon::ThreadPool> }
    pub fn make(pool: Option<usize>) -> Box<dyn Driver> {
@@ -636,13 +648,14 @@ pub mod k7_incmiddle {
          2 => { let v: Vec<(i64,)> = parse_rows(rows)?; if append { self.p.r2.extend(v) } else { self.p.r2 = v } },
          3 => { let v: Vec<(i64,i64,)> = parse_rows(rows)?; if append { self.p.r3.extend(v) } else { self.p.r3 = v } },
          4 => { let v: Vec<(i64,i64,i64,)> = parse_rows(rows)?; if append { self.p.r4.extend(v) } else { self.p.r4 = v } },
-         5 => { let v: Vec<(i64,i64,)> = parse_rows(rows)?; if append { self.p.r5.extend(v) } else { self.p.r5 = v } },
+         5 => { let v: Vec<(i64,)> = parse_rows(rows)?; if append { self.p.r5.extend(v) } else { self.p.r5 = v } },
          6 => { let v: Vec<(i64,)> = parse_rows(rows)?; if append { self.p.r6.extend(v) } else { self.p.r6 = v } },
             _ => return None,
          }
          Some(())
       }
       fn run(&mut self) { match &self.pool { Some(pl) => { let p = &mut self.p; pl.install(|| p.run()) }, None => self.p.run() } }
+      fn run_here(&mut self) { self.p.run() }
       fn run_timeout(&mut self, k: usize) -> Option<bool> { let _ = k; None }
       fn dump(&self) -> String { vec![dump_rel(0, self.p.r0.iter().map(Row::render).collect()), dump_rel(1, self.p.r1.iter().map(Row::render).collect()), dump_rel(2, self.p.r2.iter().map(Row::render).collect()), dump_rel(3, self.p.r3.iter().map(Row::render).collect()), dump_rel(4, self.p.r4.iter().map(Row::render).collect()), dump_rel(5, self.p.r5.iter().map(Row::render).collect()), dump_rel(6, self.p.r6.iter().map(Row::render).collect())].join(" | ") }
       fn iters(&self) -> String { format!("iters {}", self.p.scc_iters.iter().map(|x| x.to_string()).collect::<Vec<_>>().join(" ")) }
